@@ -207,8 +207,15 @@ func TestPropEventPipelineKeepsTheLatestSpec(t *testing.T) {
 				}
 			}
 		}
-		// with one worker nothing moves while it is held; with more, the others go on
-		sawLast := waitShown(last, 200*time.Millisecond)
+		// with one worker nothing moves while it is held; with more, the others go on. What the gateway shows while the
+		// worker is held may by chance BE the last version (a burst that ends where it began): then "the last version
+		// was applied while a worker was held" cannot be told from "nothing moved", and the held worker's own (older)
+		// version legitimately shows up for a moment after the release
+		heldState := shown()
+		sawLast := heldState != last && waitShown(last, 200*time.Millisecond)
+		if heldState == last {
+			sub.Class("state-while-held-equals-the-last-version")
+		}
 		releaseHeld()
 		if sawLast {
 			deadline := time.Now().Add(400 * time.Millisecond)
